@@ -8,6 +8,7 @@ verus! {
 //@include spec/ops.rs
 pub struct Item { pub keyspace: Keyspace, pub key: UserKey, pub value: UserValue, pub value_type: ValueType }  // src/batch/item.rs (fields)
 //@include spec/item_ops.rs
+pub type BatchItem = Item;
 //@include prelude/world.rs
 //@include prelude/handles.rs
 //@include prelude/paths.rs
